@@ -181,11 +181,14 @@ class Case:
                 ini = []
                 for f in at['fields']:
                     tag = {'pre': ' `wire:"-"`', 'pre2': ' `json:"-" wire:"-"`', 'foreign': ' `hardwire:"-"`', 'other': ' `json:"x"`'}.get(f.get('tag') or ('pre' if f.get('prevented') else ''), '')
+                    fname = f['name']
                     if f.get('tag') == 'embed':
-                        fl.append('\t%s' % self.gotype(f['type'], pkg, used))
+                        gt = self.gotype(f['type'], pkg, used)
+                        fl.append('\t%s' % gt)
+                        fname = gt.lstrip('*').split('.')[-1]       # an embedded field is named after its (possibly renamed) type
                     else:
                         fl.append('\t%s %s%s' % (f['name'], self.gotype(f['type'], pkg, used), tag))
-                    ini.append('%s: %s' % (f['name'], self.mk(f['type'], 'tok+".%s"' % f['name'], pkg, used)))
+                    ini.append('%s: %s' % (fname, self.mk(f['type'], 'tok+".%s"' % f['name'], pkg, used)))
                 body.append('type %s struct {\n%s\n}\n' % (i, '\n'.join(fl)))
                 body.append('func Mk%s(tok string) %s { _ = tok; return %s{%s} }\n' % (i, i, i, ', '.join(ini)))
             elif at['kind'] == 'iface':
